@@ -103,6 +103,23 @@ def run(case):
     if case["pca"] == "trunc":
         Vx = np.linalg.svd(X, full_matrices=False)[2][: npc[0]].conj().T
         Vy = np.linalg.svd(Y, full_matrices=False)[2][: npc[1]].conj().T
+        # the model's PCA runs the solver xeofs selects for it (randomised for wide fields): its basis spans the leading subspace only to
+        # that method's accuracy (C01's subject, not C09's). When the model's own orthonormal basis differs measurably from the exact one,
+        # the reference is whitened in the model's basis; either way the whitening and the SVD below are independent of xeofs.
+        basis_note = "exact"
+        try:
+            Vmx = np.asarray(m.pca1.V.transpose(..., "mode").values)
+            Vmy = np.asarray(m.pca2.V.transpose(..., "mode").values)
+            ok_shape = Vmx.shape == Vx.shape and Vmy.shape == Vy.shape
+            ortho = ok_shape and max(np.abs(Vmx.conj().T @ Vmx - np.eye(Vmx.shape[1])).max(), np.abs(Vmy.conj().T @ Vmy - np.eye(Vmy.shape[1])).max()) < 1e-8
+            if not ortho:
+                F.append(Finding("oracle", "pca_basis_orthonormal", f"{cls}|pca=trunc", f"the model's PCA bases are not orthonormal / have shapes {Vmx.shape},{Vmy.shape} for {npc}"))
+            else:
+                dev = max(np.linalg.norm(Vmx - Vx @ (Vx.conj().T @ Vmx)), np.linalg.norm(Vmy - Vy @ (Vy.conj().T @ Vmy)))
+                if dev > 1e-9:
+                    Vx, Vy, basis_note = Vmx, Vmy, f"model basis (subspace deviation {dev:.1e})"
+        except AttributeError:
+            pass
         X, Y = X @ Vx, Y @ Vy
     if hil and cfg["padding"] != "none":
         X = Y = None
@@ -147,8 +164,6 @@ def run(case):
         sref = np.linalg.svd(Cw, compute_uv=False)
         factor = ((n - 1) / n) ** ((ax + ay - 2) / 2)
         tol = max(1e-7, 1e-12 * cond)
-        if case["pca"] == "trunc":
-            tol = max(tol, 2e-3)  # the model's PCA uses the randomised solver, the reference an exact one
         checks += 1
         e = relerr(s, factor * sref[:kk])
         if e > tol and cond < 1e10:
@@ -158,7 +173,7 @@ def run(case):
             cors = np.array([abs(np.vdot(S1[:, j] - S1[:, j].mean(), S2[:, j] - S2[:, j].mean())) /
                              (np.linalg.norm(S1[:, j] - S1[:, j].mean()) * np.linalg.norm(S2[:, j] - S2[:, j].mean())) for j in range(kk)])
             checks += 1
-            if relerr(cors, sref[:kk]) > max(1e-6, 1e-12 * cond, 2e-3 if case["pca"] == "trunc" else 0):
+            if relerr(cors, sref[:kk]) > max(1e-6, 1e-12 * cond):
                 F.append(Finding("oracle", "cca_correlations", cc, f"correlation of paired scores {cors[:3]} vs canonical correlations {sref[:3]}"))
     if b == "MCA":
         Q1 = np.asarray(m.components()[0].transpose("x", "mode").values)
